@@ -1013,11 +1013,16 @@ func (m *Manager) updateTaskState(taskId string, state string) {
 	}
 
 	st := sm.StateFromString(state)
+	// state updates of one task arrive from several goroutines (status updates, executor/agent
+	// failures, command replies); readers take the task's lock, so must the writer
+	taskPtr.mu.Lock()
 	taskPtr.state = st
 	taskPtr.safeToStop = false
+	taskPtr.mu.Unlock()
 	taskPtr.SendEvent(&event.TaskEvent{Name: taskPtr.GetName(), TaskID: taskId, State: state, Hostname: taskPtr.hostname, ClassName: taskPtr.GetClassName()})
-	if taskPtr.GetParent() != nil {
-		taskPtr.GetParent().UpdateState(st)
+	// the task may be released (parent reset) at any time: read the parent once
+	if parent := taskPtr.GetParent(); parent != nil {
+		parent.UpdateState(st)
 	}
 }
 
